@@ -9,6 +9,7 @@ fuzz_target!(|data: &[u8]| {
         return;
     }
     let e = env();
+    begin(data);
     let mode = data[0];
     let input = e.dir.join("in.bin");
     std::fs::write(&input, &data[1..]).unwrap();
